@@ -2,3 +2,4 @@ SPECIFICATION Spec
 INVARIANT NotStuck
 INVARIANT Export
 CHECK_DEADLOCK FALSE
+VIEW IView
